@@ -42,6 +42,7 @@ type World struct {
 	SpecErrs []string
 	specFnDeclared map[string]bool
 	ContractFiles []string
+	mayEffect map[*ssa.Function]int // memo: 1 = no, 2 = yes, 3 = in progress
 }
 
 func shortPath(p string) string {
@@ -385,4 +386,78 @@ func (w *World) foldString(v ssa.Value, depth int, env map[ssa.Value]string) (st
 		}
 	}
 	return "", false
+}
+
+// ifaceSpecKey is the contract key of an interface method call.
+func ifaceSpecKey(c *ssa.CallCommon) (string, bool) {
+	n, ok := types.Unalias(c.Value.Type()).(*types.Named)
+	if !ok || n.Obj().Pkg() == nil {
+		return "", false
+	}
+	key := shortPath(n.Obj().Pkg().Path()) + ":" + n.Obj().Name() + "." + c.Method.Name()
+	if !strings.HasPrefix(n.Obj().Pkg().Path(), RepoModule) {
+		key = n.Obj().Pkg().Path() + "." + n.Obj().Name() + "." + c.Method.Name()
+	}
+	return key, true
+}
+
+// MayEffect reports whether running f can append events to the effect trace: its body, the bodies of the
+// repository functions it calls statically and of the closures it creates contain a call of an interface method
+// or external function declared `effect`. (Calls of unknown function values and of interface methods without a
+// contract never log events; the trace speaks about declared effects only.)
+func (w *World) MayEffect(f *ssa.Function) bool {
+	if w.mayEffect == nil {
+		w.mayEffect = map[*ssa.Function]int{}
+	}
+	switch w.mayEffect[f] {
+	case 1, 3:
+		return false
+	case 2:
+		return true
+	}
+	w.mayEffect[f] = 3
+	res := false
+	if sp := w.SpecFor(f); sp != nil && sp.Effect {
+		res = true
+	}
+	for _, b := range f.Blocks {
+		if res {
+			break
+		}
+		for _, in := range b.Instrs {
+			if mc, ok := in.(*ssa.MakeClosure); ok {
+				if fn, ok := mc.Fn.(*ssa.Function); ok && w.MayEffect(fn) {
+					res = true
+				}
+			}
+			ci, ok := in.(ssa.CallInstruction)
+			if !ok {
+				continue
+			}
+			c := ci.Common()
+			if c.IsInvoke() {
+				if key, ok := ifaceSpecKey(c); ok {
+					if sp, ok := w.Specs[key]; ok && sp.Effect {
+						res = true
+					}
+				}
+				continue
+			}
+			if callee := c.StaticCallee(); callee != nil {
+				if sp := w.SpecFor(callee); sp != nil && sp.Effect {
+					res = true
+				} else if callee.Blocks != nil && IsRepo(callee) && w.MayEffect(callee) {
+					res = true
+				} else if isMapsIterate(callee) {
+					// the callback is a closure created in f: scanned above
+				}
+			}
+		}
+	}
+	if res {
+		w.mayEffect[f] = 2
+	} else {
+		w.mayEffect[f] = 1
+	}
+	return res
 }
